@@ -52,7 +52,22 @@ pub fn run(args: &Args) -> Value {
         let beta = [0.5, 1.0, 2.0, 4.0][rng.below(4) as usize];
         let mut g = spec.build(TapeRng::new(rng.next()));
         g.set_run_rvb(rvb);
-        let ctx = json!({"edges": spec.edges, "gamma": spec.gamma, "h": spec.h, "heatbath": spec.hb, "rvb": rvb, "cutoff0": spec.cutoff, "beta": beta});
+        // option histories: RVB used by hand only (the lookup tables exist, the automatic option is off), or used
+        // for a warm-up and then switched off again — the snapshot must carry the OPTION, not what can be derived
+        // from the tables that happen to exist
+        let rvb_history = if !rvb { rng.below(3) } else { 0 };
+        if rvb_history == 1 {
+            g.timestep(beta);
+            g.single_rvb_sweep(Some(2));
+        } else if rvb_history == 2 {
+            g.set_run_rvb(true);
+            g.timestep(beta);
+            g.timestep(beta);
+            g.set_run_rvb(false);
+        }
+        let rvb_history_name = ["none", "manual single_rvb_sweep only", "automatic RVB for two steps, then switched off"][rvb_history as usize];
+        let ctx = json!({"edges": spec.edges, "gamma": spec.gamma, "h": spec.h, "heatbath": spec.hb, "rvb": rvb, "cutoff0": spec.cutoff, "beta": beta,
+            "rvb_history": rvb_history_name});
         let nsteps = 3 + rng.below(8) as usize;
         let m = 3usize;
         for k in 0..=nsteps {
